@@ -8,7 +8,10 @@ every result term is in normal order (OFV.Spec.C03, all pairs), normal ordering 
 (2) canonicity: pairs of spellings of one operator (rewritten with the defining relations by the
 harness) have identical normal forms, pairs of different operators do not; (3) InteractionOperator
 branch: Model tie, support on p>q, r>s, same denoted FermionOperator (built from the tensors by
-the harness); (4) chemist_ordered and reorder: Model tie + same operator / relabelled operator.
+the harness); (4) chemist_ordered and reorder: Model tie + same operator / relabelled operator (constant and zero
+operators included; num_modes observed through the calls of the order function); (5) the public
+term functions and normal_ordered called repeatedly around in-place modifications of earlier
+results: fresh, unaliased, correct objects.
 All coefficients are dyadic (hbar too), so the implementation's float arithmetic is exact and
 dictionaries are compared exactly."""
 import itertools
@@ -30,9 +33,9 @@ ASSUMPTIONS = [
     'boson / quadrature "same operator" is decided in the polynomial (Bargmann / Schroedinger) representation on all monomials of degree <= max term length per mode',
 ]
 OPEN_STATEMENTS = [
-    'canonicity is proved for fermions (canonicity_fermion, tolerance 0); for bosons and quadratures the linear independence of normal-ordered monomials in the polynomial representation is not proved: checked by the canonicity stream (oracle) only',
+    'canonicity is proved for all three algebras (canonicity_fermion / canonicity_boson / canonicity_quad, hbar != 0) for the Model with tolerance 0 and action codes 0 / 1; exponent vectors / basis states range over all canonical ones, not only those the driver enumerates',
     'tolerance: soundness / canonicity are proved for the Model with tolerance 0 and transferred to the real EQ_TOLERANCE on lattice inputs (1/D)Z[i], tol*D <= 1 (normal_ordered_exact_regime: fermions, bosons, quadratures with Gaussian-integer hbar; for hbar = 1/2 the transfer is checked per case only: r vs r0); inputs off the lattice are outside the theorems',
-    'InteractionOperator branch: generators, closed form and soundness of the two-body tensor are proved; that constant and one-body tensor are copied and the argument is not modified is checked by the correspondence run; reorder: proved for FermionOperator (relabelling of the generators), other classes by correspondence + oracle',
+    'InteractionOperator branch: generators, closed form and soundness of the two-body tensor are proved; that constant and one-body tensor are copied and the argument is not modified is checked by the correspondence run; reorder: proved for Fermion / Boson / QuadOperator (relabelling of the generators), QubitOperator by correspondence + oracle',
     'termination fuel: noTerm uses fuel len(term)+1; that this fuel never runs out is a consequence of the soundness theorem for tolerance 0 (an exhausted fuel would return the empty dictionary) and is otherwise covered by the correspondence run',
 ]
 
@@ -445,11 +448,13 @@ def stream_chemist_reorder(ctx):
         items[0] = (items[0][0] + ((nm - 1, acts[0]),) if not any(f[0] == nm - 1 for f in items[0][0]) else items[0][0],
                     items[0][1])
         op = mk_op(C, items)
-        if rng.random() < 0.03:
-            # a constant (or zero) operator: no mode index at all
+        if rng.random() < 0.06:
+            # a constant or the zero operator: no mode index at all
             op = C((), dyadic(rng, max_num=4, max_pow=1)) if rng.random() < 0.7 else C()
         which = rng.choice(['up_then_down', 'reversal', 'perm'])
         num_modes = nm if rng.random() < 0.5 else None
+        if which == 'perm':
+            num_modes = nm          # a permutation of range(nm) is only a mode map for exactly nm modes
         rev = rng.random() < 0.3
         if which == 'up_then_down':
             fn = of.up_then_down
@@ -462,16 +467,30 @@ def stream_chemist_reorder(ctx):
 
             def fn(i, n, perm=perm):
                 return perm[i]
-        case = {'cls': cls, 'terms': enc_op(cls, op.terms), 'order_function': which, 'num_modes': num_modes, 'reverse': rev}
+        no_index = all(len(t) == 0 for t in op.terms)
+        case = {'cls': cls, 'terms': enc_op(cls, op.terms), 'order_function': which, 'num_modes': num_modes,
+                'reverse': rev, 'no_mode_index': no_index}
+        before = enc_op(cls, op.terms)
+        calls = []
+
+        def fn_rec(i, n, fn=fn, calls=calls):
+            calls.append((i, n))
+            return fn(i, n)
         try:
-            res = of.reorder(op, fn, num_modes=num_modes, reverse=rev)
+            res = of.reorder(op, fn_rec, num_modes=num_modes, reverse=rev)
         except Exception as e:  # noqa
-            case['no_mode_index'] = all(len(t) == 0 for t in op.terms)
             s.violate('reorder raised %s' % type(e).__name__, case, {'error': repr(e)})
             continue
-        n_eff = nm if num_modes is None else num_modes
-        if num_modes is None and all(len(t) == 0 for t in op.terms):
-            continue
+        if enc_op(cls, op.terms) != before or res is op:
+            s.violate('reorder modified or returned its argument', case, {})
+        # num_modes as documented: one more than the largest mode index (0 if there is none)
+        n_eff = (max([f[0] for t in op.terms for f in t], default=-1) + 1) if num_modes is None else num_modes
+        # the order function is called exactly once per mode index, with the documented num_modes
+        if sorted(calls) != [(i, n_eff) for i in range(n_eff)]:
+            s.violate('reorder called order_function with other (mode_idx, num_modes) than range(num_modes) x {num_modes}',
+                      case, {'calls': calls[:8], 'num_modes_expected': n_eff})
+        if no_index and canon_op_json(enc_op(cls, res.terms)) != canon_op_json(before):
+            s.violate('reorder changed an operator without any mode index', case, {'result': enc_op(cls, res.terms)})
         mp = {i: fn(i, n_eff) for i in range(n_eff)}
         if rev:
             mp = {v: k for k, v in mp.items()}
@@ -486,35 +505,111 @@ def stream_chemist_reorder(ctx):
     ans = ctx.driver.run(reqs)
     for i, (case, cls, mlist, relabelled, out, n_eff) in enumerate(rows):
         s.case(case)
-        s.count('reorder:%s:%s' % (cls, case['order_function']))
-        model, eq = ans[2 * i], ans[2 * i + 1]
+        s.count('reorder:%s:%s%s' % (cls, case['order_function'], ':no-mode-index' if case['no_mode_index'] else ''))
+        model, eq = ans[2 * i]['r'], ans[2 * i + 1]
         if canon_op_json(model) != canon_op_json(out):
             s.disagree('reorder', case, out, model)
+        if case['num_modes'] is None and ans[2 * i]['num_modes'] != n_eff:
+            s.disagree('reorder: default num_modes', case, n_eff, ans[2 * i]['num_modes'])
         if not eq['eq']:
             s.violate('reorder(op) is not the relabelled operator', case, {'result': out, 'witness_state': eq['state']})
     return s
 
 
-def classify(v):
-    case = v.get('input', {}) or {}
-    if v.get('stream') == 'chemist-reorder' and v.get('what') == 'reorder raised ValueError' \
-            and case.get('no_mode_index') and case.get('num_modes') is None:
-        return 'F03b'
-    return None
+# ---------------------------------------------------------------- stream 5: fresh results, no aliasing
 
-
-def probe_known(ctx, k):
+def stream_fresh_results(ctx):
+    """normal_ordered_ladder_term / normal_ordered_quad_term / normal_ordered called again after the
+    first result was modified in place: every call must return a new, correct object."""
     of = ctx.of
-    if k['id'] == 'F03b':
-        try:
-            of.reorder(of.FermionOperator(()), of.up_then_down)
-        except ValueError:
-            return True
-        except Exception:
-            return True
-        return False
-    return False
+    tr = of.transforms.opconversions.term_reordering
+    s = Stream('fresh-results', 'normal_ordered_ladder_term / normal_ordered_quad_term (public term functions) and '
+               'normal_ordered called twice on the same argument around an in-place modification (+=, *=, -=) of the '
+               'first result, and on related terms whose contractions recurse into earlier terms: the later result must '
+               'be a new object (no aliasing with any earlier result or the argument), equal to the first one, to the '
+               'Model and denote c * term (spec.eq); the argument is not modified')
+    n = budget(ctx.tier, 80, 1500)
+    if ctx.drift:
+        n = max(n, 400)
+    rows = []
+    for cls in ('fermion', 'boson', 'quad'):
+        rng = rng_for(ctx.seed, 'c03-fresh-' + cls)
+        C = cls_of(of, cls)
+        earlier = []        # results of earlier calls (kept alive): none may be returned again
+        for _ in range(n):
+            hb = rng.choice(HBARS) if cls == 'quad' else 1.0
+            nm = rng.choice([1, 2]) if cls != 'fermion' else rng.choice([2, 3])
+            ln = rng.randint(2, 6)
+            t = tuple((rng.randrange(nm), rng.choice(ACTIONS[cls])) for _x in range(ln))
+            c = dyadic(rng, max_num=4, max_pow=2)
+
+            def call(term, coeff):
+                if cls == 'quad':
+                    return tr.normal_ordered_quad_term(term, coeff, hb)
+                return tr.normal_ordered_ladder_term(term, coeff, -1 if cls == 'fermion' else 1)
+            case = {'cls': cls, 'term': enc_term(cls, t), 'c': to_gq(c), 'hbar': hb}
+            try:
+                r1 = call(t, c)
+                snap = enc_op(cls, r1.terms)
+                # in-place modifications of the first result
+                r1 += C(rand_term(rng, cls, 2, nm), 1.0)
+                r1 *= rng.choice([2.0, -1.0, 0.5])
+                if rng.random() < 0.5:
+                    r1 -= C((), 3.0)
+                # a longer term whose contractions recurse into `t`'s sub-terms
+                x = (rng.randrange(nm), ACTIONS[cls][1])
+                y = (x[0], ACTIONS[cls][0])
+                r_mid = call((x, y) + t, c)
+                r2 = call(t, c)
+                op = C()
+                op.terms = {t: c} if cls == 'fermion' else dict(C(t, c).terms)
+                before = enc_op(cls, op.terms)
+                n1 = normal_call(of, cls, op, hb)
+                snap_n = enc_op(cls, n1.terms)
+                n1 *= 3.0
+                n1 += C(rand_term(rng, cls, 1, nm), 1.0)
+                n2 = normal_call(of, cls, op, hb)
+            except Exception as e:  # noqa
+                s.violate('term function raised %s' % type(e).__name__, case, {'error': repr(e)})
+                continue
+            s.case(case)
+            s.count(cls)
+            objs = [r1, r_mid, r2, n1, n2]
+            if len({id(o) for o in objs}) != len(objs) or any(o is e for o in objs for e in earlier) \
+                    or any(o is op for o in objs):
+                s.violate('a call returned an object that aliases an earlier result or its argument', case, {})
+            earlier = (earlier + [r2, r_mid])[-40:]
+            if enc_op(cls, op.terms) != before:
+                s.violate('normal_ordered modified its argument', case, {})
+            if canon_op_json(enc_op(cls, r2.terms)) != canon_op_json(snap):
+                s.violate('second call of the term function differs from the first (first result was modified in place)',
+                          case, {'first': snap, 'second': enc_op(cls, r2.terms)})
+            if canon_op_json(enc_op(cls, n2.terms)) != canon_op_json(snap_n):
+                s.violate('second call of normal_ordered differs from the first (first result was modified in place)',
+                          case, {'first': snap_n, 'second': enc_op(cls, n2.terms)})
+            rows.append((case, cls, t, c, hb, enc_op(cls, r2.terms), (x, y) + t, enc_op(cls, r_mid.terms)))
+    reqs = []
+    for case, cls, t, c, hb, j2, tm, jm in rows:
+        for term, jr in ((t, j2), (tm, jm)):
+            reqs.append({'op': 'c03.no_term', 'kind': kind_json(cls, hb), 'term': enc_term(cls, term), 'c': to_gq(c)})
+            nmod = 1 + max([i for i, _ in term] + [0])
+            reqs.append({'op': 'spec.eq', 'alg': alg_json(cls, hb), 'n': nmod, 'd': len(term),
+                         'lhs': ['leaf', [[enc_term(cls, term), to_gq(c)]]], 'rhs': ['leaf', jr]})
+    ans = ctx.driver.run(reqs)
+    for i, (case, cls, t, c, hb, j2, tm, jm) in enumerate(rows):
+        for k, (what, jr) in enumerate((('repeated call', j2), ('longer term', jm))):
+            model, eq = ans[4 * i + 2 * k], ans[4 * i + 2 * k + 1]
+            if big(model) or big(jr):
+                s.discards += 1
+                continue
+            if canon_nz(model) != canon_nz(jr):
+                s.disagree('term function (%s)' % what, case, jr, model)
+            if not eq['eq']:
+                s.violate('term function result (%s) does not denote c * term' % what, case,
+                          {'result': jr, 'witness_state': eq['state']})
+    return s
 
 
 def run(ctx):
-    return [stream_terms(ctx), stream_canonicity(ctx), stream_interaction(ctx), stream_chemist_reorder(ctx)]
+    return [stream_terms(ctx), stream_canonicity(ctx), stream_interaction(ctx), stream_chemist_reorder(ctx),
+            stream_fresh_results(ctx)]
